@@ -229,7 +229,7 @@ func HarnessXofReadWrite(p0, p1 int) {
 	}
 	n, err = x.Write(buf)
 	ok = n == p1 && err == nil && f.wn == p1
-	for i := 0; i < p1; i++ {
+	for i := 0; i < p1 && i < len(f.wr); i++ {
 		ok = ok && f.wr[i] == buf[i]
 	}
 	vassert(ok, "Write absorbs exactly the bytes given")
